@@ -73,23 +73,21 @@ Proof.
     change (Z.of_int (Z.to_int (Zneg p)) = Zneg p). apply DecimalZ.of_to.
 Qed.
 
+Ltac numc_tac c :=
+  unfold numc; destruct (good_char c), (is_slash c), (is_hash c), (Ascii.eqb c "N"), (is_inf_letter c), (Ascii.eqb c "+");
+  simpl; congruence.
 Lemma numc_good c : numc c = true -> good_char c = true.
-Proof. unfold numc. intros H. repeat (apply andb_prop in H; destruct H as [H ?]). auto. Qed.
+Proof. numc_tac c. Qed.
 Lemma numc_slash c : numc c = true -> is_slash c = false.
-Proof. unfold numc. intros H. repeat (apply andb_prop in H; destruct H as [H ?]).
-  destruct (is_slash c); simpl in *; congruence. Qed.
+Proof. numc_tac c. Qed.
 Lemma numc_hash c : numc c = true -> is_hash c = false.
-Proof. unfold numc. intros H. repeat (apply andb_prop in H; destruct H as [H ?]).
-  destruct (is_hash c); simpl in *; congruence. Qed.
+Proof. numc_tac c. Qed.
 Lemma numc_N c : numc c = true -> Ascii.eqb c "N" = false.
-Proof. unfold numc. intros H. repeat (apply andb_prop in H; destruct H as [H ?]).
-  destruct (Ascii.eqb c "N"); simpl in *; congruence. Qed.
+Proof. numc_tac c. Qed.
 Lemma numc_inf c : numc c = true -> is_inf_letter c = false.
-Proof. unfold numc. intros H. repeat (apply andb_prop in H; destruct H as [H ?]).
-  destruct (is_inf_letter c); simpl in *; congruence. Qed.
+Proof. numc_tac c. Qed.
 Lemma numc_plus c : numc c = true -> Ascii.eqb c "+" = false.
-Proof. unfold numc. intros H. repeat (apply andb_prop in H; destruct H as [H ?]).
-  destruct (Ascii.eqb c "+"); simpl in *; congruence. Qed.
+Proof. numc_tac c. Qed.
 
 Lemma print_Z_good z : good_word (print_Z z) = true.
 Proof.
